@@ -17,9 +17,11 @@ Traces == JsonDeserialize(IOEnv.TRACE_FILE)
 VARIABLES tid,        \* trace being validated
           l,          \* next event
           verdict,    \* "ok" or the name of the first failing clause
-          obsHanded   \* observation history: before+after of every successful call
+          obsHanded,  \* observation history: before+after of every successful call
+          rdy,        \* characters that were readable (kernel-held) when the outstanding call started
+          recv0       \* Len(recv) when the outstanding call started
 
-tvars == <<recv, pend, handed, eof, phase, call, last, tid, l, verdict, obsHanded>>
+tvars == <<recv, pend, handed, eof, phase, call, last, tid, l, verdict, obsHanded, rdy, recv0>>
 
 Ev == Traces[tid].ev
 E  == Ev[l]
@@ -29,7 +31,7 @@ Step == l' = l + 1 /\ tid' = tid
 Fail(v) == verdict' = v /\ UNCHANGED avars
 Same == UNCHANGED <<verdict>>
 
-TInit == /\ AInit /\ tid = 1 /\ l = 1 /\ verdict = "ok" /\ obsHanded = <<>>
+TInit == /\ AInit /\ tid = 1 /\ l = 1 /\ verdict = "ok" /\ obsHanded = <<>> /\ rdy = 0 /\ recv0 = 0
 
 FirstFailing(cs) ==   \* cs: sequence of <<holds, name>>
   LET bad == {i \in 1..Len(cs) : ~cs[i][1]} IN
@@ -40,6 +42,7 @@ TCall ==
   /\ IF phase = "idle"
      THEN Call(E.pats, E.W, E.tmo, E.exact) /\ Same
      ELSE Fail("harness:call-while-outstanding")
+  /\ rdy' = E.ready /\ recv0' = Len(recv)
   /\ Step /\ UNCHANGED obsHanded
 
 TRead ==
@@ -48,37 +51,53 @@ TRead ==
      THEN ReadData(E.d) /\ Same
      ELSE Fail(IF phase = "idle" THEN "C03:read-after-contract-returned"
                ELSE IF eof THEN "C04:read-data-after-eof" ELSE "C05:read-with-negative-timeout")
-  /\ Step /\ UNCHANGED obsHanded
+  /\ Step /\ UNCHANGED <<obsHanded, rdy, recv0>>
 
 TReadEof ==
   /\ Has("reof")
   /\ IF phase = "loop" /\ call.tmo # "neg"
      THEN ReadEOF /\ Same
      ELSE Fail(IF phase = "idle" THEN "C03:read-after-contract-returned" ELSE "C05:read-with-negative-timeout")
-  /\ Step /\ UNCHANGED obsHanded
+  /\ Step /\ UNCHANGED <<obsHanded, rdy, recv0>>
 
 TReadTmo ==
   /\ Has("rtmo")
   /\ IF phase = "loop" /\ call.tmo \notin {"neg"}
      THEN (IF call.tmo = "none" THEN Fail("harness:read-timeout-with-timeout-None") ELSE Timeout /\ Same)
      ELSE Fail(IF phase = "idle" THEN "C03:read-after-contract-returned" ELSE "C05:read-with-negative-timeout")
-  /\ Step /\ UNCHANGED obsHanded
+  /\ Step /\ UNCHANGED <<obsHanded, rdy, recv0>>
 
 TReadErr ==
   /\ Has("rerr")
   /\ IF phase = "loop" THEN ReadError /\ Same ELSE Fail("C03:read-after-contract-returned")
-  /\ Step /\ UNCHANGED obsHanded
+  /\ Step /\ UNCHANGED <<obsHanded, rdy, recv0>>
 
 TSetBuf ==
   /\ Has("setbuf")
   /\ SetBuffer(E.v) /\ Same
-  /\ Step /\ obsHanded' = obsHanded
+  /\ Step /\ obsHanded' = obsHanded /\ UNCHANGED <<rdy, recv0>>
+
+\* asyncio path: a chunk handed to the protocol after the future was resolved or cancelled.
+\* If the contract still has the call outstanding, the only explanation is that its deadline fired.
+TLate ==
+  /\ Has("late")
+  /\ IF phase = "loop" /\ call.tmo # "none" /\ Len(recv) - recv0 < rdy
+     THEN Fail("C14:readable-data-not-searched-before-timeout")
+     ELSE IF phase = "loop" /\ call.tmo # "none"
+     THEN /\ last' = [kind |-> "timeout", idx |-> MarkerIndex(call.pats, "TIMEOUT") - 1, before |-> pend \o E.d, after |-> <<>>]
+          /\ phase' = "idle" /\ recv' = recv \o E.d /\ pend' = pend \o E.d
+          /\ UNCHANGED <<handed, eof, call>> /\ Same
+     ELSE IF phase = "idle" /\ ~eof
+     THEN /\ LateData(E.d) /\ Same
+     ELSE Fail("C14:data-after-eof-or-late-data-without-deadline")
+  /\ Step /\ UNCHANGED <<obsHanded, rdy, recv0>>
 
 \* The expected outcome at a `ret`: the contract's last outcome, or - when the
 \* call's own deadline fired without a read raising TIMEOUT - the Timeout outcome.
 DeadlineFired == phase = "loop" /\ E.kind = "timeout" /\ call.tmo # "none"
 Exp == IF DeadlineFired
        THEN [kind |-> "timeout", idx |-> MarkerIndex(call.pats, "TIMEOUT") - 1, before |-> pend, after |-> <<>>]
+       ELSE IF last.kind = "timeout" THEN [last EXCEPT !.before = pend]      \* all pending text, late arrivals included
        ELSE last
 
 TRet ==
@@ -109,7 +128,9 @@ TRet ==
                     <<x.idx >= 0 => (o.raised = "" /\ o.mi = x.idx /\ o.mk = marker), "C04:listed-marker-returns-index">>,
                     <<x.idx < 0 => (o.raised = marker /\ o.mi = -1 /\ o.mk = "None"), "C04:unlisted-marker-raises-exact-class">>,
                     <<x.kind = "eof" => o.buffer = <<>>, "C04:pending-cleared-after-eof">>,
-                    <<x.kind = "timeout" => IsSuffixOf(o.buffer, o.before), "C01:timeout-buffer-not-suffix-of-pending">> >>
+                    <<x.kind = "timeout" => IsSuffixOf(o.buffer, o.before), "C01:timeout-buffer-not-suffix-of-pending">>,
+                    <<(x.kind = "timeout" /\ call.tmo \in {"zero", "pos"}) => Len(recv) - recv0 >= rdy,
+                      "C14:timeout-although-data-was-readable">> >>
                ELSE IF x.kind = "error" THEN
                  << <<o.kind = "error", "C04:outcome-kind">>,
                     <<o.before = x.before, "C01:error-consumed-text">> >>
@@ -122,7 +143,7 @@ TRet ==
            ELSE UNCHANGED avars
         /\ obsHanded' = IF o.kind = "match" THEN obsHanded \o o.before \o o.after
                         ELSE IF o.kind = "eof" THEN obsHanded \o o.before ELSE obsHanded
-  /\ Step
+  /\ Step /\ UNCHANGED <<rdy, recv0>>
 
 \* file-like entry points are derived calls: their return value is a function of the outcome
 TFlRet ==
@@ -132,7 +153,7 @@ TFlRet ==
                    [] E.fn = "readline" -> IF last.kind = "match" THEN last.before \o last.after ELSE last.before
                    [] OTHER -> <<>>
      IN verdict' = IF E.val = want THEN "ok" ELSE "C01:file-like-return-value"
-  /\ Step /\ UNCHANGED <<avars, obsHanded>>
+  /\ Step /\ UNCHANGED <<avars, obsHanded, rdy, recv0>>
 
 \* the contract's own invariants are evaluated after every event (they hold by
 \* construction: a violation here is a bug of the specification, status 2)
@@ -141,11 +162,11 @@ TNextTrace ==
   /\ (l > Len(Ev) \/ verdict # "ok")
   /\ PrintT(<<"VERDICT", tid, Traces[tid].id, verdict, l>>)
   /\ tid < Len(Traces)
-  /\ tid' = tid + 1 /\ l' = 1 /\ verdict' = "ok" /\ obsHanded' = <<>>
+  /\ tid' = tid + 1 /\ l' = 1 /\ verdict' = "ok" /\ obsHanded' = <<>> /\ rdy' = 0 /\ recv0' = 0
   /\ recv' = <<>> /\ pend' = <<>> /\ handed' = <<>> /\ eof' = FALSE
   /\ phase' = "idle" /\ call' = NoCall /\ last' = NoOutcome
 
-TNext == TCall \/ TRead \/ TReadEof \/ TReadTmo \/ TReadErr \/ TSetBuf \/ TRet \/ TFlRet \/ TNextTrace
+TNext == TCall \/ TLate \/ TRead \/ TReadEof \/ TReadTmo \/ TReadErr \/ TSetBuf \/ TRet \/ TFlRet \/ TNextTrace
 
 TraceSpec == TInit /\ [][TNext]_tvars
 
